@@ -260,6 +260,13 @@ def first_match_rule(rep, prog, cfg):
         fwd = [n for n, _ in calls if n in ("find", "find_map", "position", "next")]
         rep.check(not back and fwd, rule, "%s/Frame::%s scans forward" % (cfg, m), b.loc(b.span),
                   "Frame::%s does not return the FIRST remaining match (uses %s)" % (m, sorted(set(back)) or "no forward search"))
+        # the key is compared exactly (the protocol is case-sensitive; `Title` and `title` are different keys)
+        from .C03 import INEXACT
+        inexact = sorted({n.rsplit("::", 1)[-1].split("::<")[0] for n in allnames
+                          if n.rsplit("::", 1)[-1].split("::<")[0] in INEXACT and ("<impl str>" in n or "::str::" in n or "String" in n)
+                          and n.rsplit("::", 1)[-1].split("::<")[0] not in ("find", "contains")})
+        rep.check(not inexact, rule, "%s/Frame::%s compares keys exactly" % (cfg, m), b.loc(b.span),
+                  "Frame::%s matches the key through %s: a differently spelled key would be returned (or removed) in place of the one asked for" % (m, inexact))
         if m == "get":
             # the value is removed through the element that matched: Option::take on the closure's own parameter
             # (closure form: the closure's parameter; loop form: the element the forward iterator just yielded, which must
